@@ -106,10 +106,15 @@ lookup_glyph (pixman_glyph_cache_t *cache,
 	      void                 *glyph_key)
 {
     unsigned idx;
+    unsigned n_probes = HASH_SIZE;
     glyph_t *g;
 
     idx = hash (font_key, glyph_key);
-    while ((g = cache->glyphs[idx++ & HASH_MASK]))
+
+    /* The table may have no empty slot left (every slot a glyph or a
+     * tombstone), so stop after one full round.
+     */
+    while (n_probes-- && (g = cache->glyphs[idx++ & HASH_MASK]))
     {
 	if (g != TOMBSTONE			&&
 	    g->font_key == font_key		&&
